@@ -433,18 +433,11 @@ Proof.
   - intros p Hp. discriminate.
 Qed.
 
-Lemma sealed_fetch_ok : forall g f ids,
-  1 <= ipb g -> f_sealed f = true -> docs_wf (f_docs f) ->
-  frac_fetch g (compile f) ids = Ok (map (lookup f) ids).
-Proof.
-  intros g f ids Hg Hs Hw. unfold frac_fetch, frac_fetch_gen. rewrite cf_compile, Hs.
-  destruct (sealed_find_lids_ok g f ids Hg Hs Hw) as [lids [H1 H2]].
-  unfold find_lids in H1. rewrite H1. exact H2.
-Qed.
+(* sealed_fetch_ok (through the position layer) is in ProofsPhys.v *)
 
 (* ------------------------------------------------------------------ 6. the unrepaired findLIDs *)
 Definition g_ex : cfg := mkCfg 4 1000 10.
-Definition f_ex : frac := mkFrac 1 true 10 20 None [((10, 5), (1, 7)); ((20, 3), (2, 9))].
+Definition f_ex : frac := mkFrac 1 true 10 20 None [((10, 5), (1, 7)); ((20, 3), (2, 9))] [].
 Definition x_ex : id := (10, 2).
 
 Lemma f_ex_wf : docs_wf (f_docs f_ex).
@@ -470,5 +463,4 @@ Example sealed_fetch_ex :
 Proof. split; vm_compute; reflexivity. Qed.
 
 Print Assumptions less_or_equal_spec.
-Print Assumptions sealed_fetch_ok.
 Print Assumptions find_lids_v0_refuted.
